@@ -883,6 +883,7 @@ def rule_R1m(res, prog):
     that field in a state this hello justifies: on every path to a success return the encoder has stored it or examined it
     (the branch that resets a left-over negotiation state when the extension is not sent)."""
     from sa import cfgutil as cu
+    import re
     rid = "C06.R1m"
     res.rule(rid, "TLS <= 1.2 client: every ClientHello re-establishes the ticket negotiation state of the (long-lived) session id object")
     lst = prog.by_name.get("matrixSslEncodeClientHello")
@@ -890,9 +891,30 @@ def rule_R1m(res, prog):
         res.floor(rid, 0)
         return
     fn = lst[0]
+    # A DTLS hello that is encoded AGAIN (cookie exchange, retransmission) sends the extensions saved by the first encoding of
+    # this connection: `ssl->helloExtLen > 0`.  That edge is exempt provided the saved length is a per-connection fact the first
+    # encoding established: every store of something other than 0 to helloExtLen is inside this encoder.
+    foreign = []
+    for g in prog.functions.values():
+        for b in g.blocks:
+            for el in b.get("el", []):
+                t = cu.ftext(el["x"])
+                m = re.search(r"helloExtLen\s*=(?!=)\s*([^;]*)", t)
+                if m and m.group(1).strip(" ()") != "0" and g.name != fn.name:
+                    foreign.append((g.relfile, el.get("ln"), g.name))
+    redo_ok = not foreign
+
+    def _exempt(b, k):
+        if not (b.get("term") and "c" in b["term"] and len(b["succ"]) == 2):
+            return False
+        for (txt, tr, nd) in cu._cond_atoms(b["term"]["c"], k == 0):
+            if txt in ("ssl->sid", "(ssl->sid != 0)") and not tr:
+                return True
+            if redo_ok and tr and re.fullmatch(r"\(?ssl->helloExtLen > 0\)?", txt):
+                return True
+        return False
     esc = cu.escapes(fn, (fn.entry, None), lambda x: "sessionTicketState" in cu.ftext(x), is_target=cu.success_ret,
-                     exempt_edge=lambda b, k: any(txt in ("ssl->sid", "(ssl->sid != 0)") and not tr
-                                                  for (txt, tr, nd) in (cu._cond_atoms(b["term"]["c"], k == 0) if b.get("term") and "c" in b["term"] and len(b["succ"]) == 2 else [])))
+                     exempt_edge=_exempt)
     f_ = None
     if esc is not None:
         f_ = Finding(PROP, rid, fn.name, "ClientHello written without looking at the ticket state of the session id object",
